@@ -55,6 +55,21 @@ func c12Shapes() []*spec.Spec {
 			&spec.Conn{From: "T1.out", To: "B.in"}, &spec.Conn{From: "T2.out", To: "C.in"})
 		out = append(out, s)
 	}
+	// many tagged files fanned out to consumers with one and two outputs, whose audit writing overlaps
+	{
+		s := mk("tagged_fanout", 24)
+		two := []spec.PortDecl{{Name: "out"}, {Name: "res"}}
+		s.Procs = append(s.Procs, &spec.Proc{Name: "T", Kind: spec.KMapToTags, Tags: []*spec.TagRule{{Key: "grp", Rule: "idx"}, {Key: "k", Rule: "stem"}}},
+			cmd("stats", in, two, 1), cmd("sums", in, two, 1), cmd("copy", in, o1, 1), cmd("rev", in, o1, 1),
+			&spec.Proc{Name: "T2", Kind: spec.KMapToTags, Tags: []*spec.TagRule{{Key: "again", Rule: "const:z"}}}, cmd("last", in, o1, 1))
+		s.Conns = append(s.Conns, &spec.Conn{From: "src.out", To: "T.in"})
+		for _, n := range []string{"stats", "sums", "copy", "rev"} {
+			s.Conns = append(s.Conns, &spec.Conn{From: "T.out", To: n + ".in"})
+		}
+		s.Conns = append(s.Conns, &spec.Conn{From: "stats.out", To: "T2.in"}, &spec.Conn{From: "T2.out", To: "last.in"})
+		s.MaxTasks = 8
+		out = append(out, s)
+	}
 	// fan-in of many upstreams closing at once
 	{
 		s := mk("fanin_close", 3)
